@@ -34,18 +34,27 @@ def payload(cmd, burst, n):
     return bytes(bytearray((cmd * 7 + burst * 13 + i) & 0xff for i in range(n)))
 
 
+def reqdata(cmd, burst, n):
+    """the data command cmd of call burst is given to carry TO the machine (a block to write, a routing entry, a
+    fill pattern): n bytes, every byte value incl. 0, quotes, backslashes and non-ASCII ones occurs in long ones"""
+    return bytes(bytearray((cmd * 29 + burst * 17 + i * 37 + 0x7b) & 0xff for i in range(n)))
+
+
 class Codec(object):
     """requests and replies in the real packet layout (rig's own SCPPacket); command c of call b travels with
-    arg1 = c, arg2 = b, and its reply carries the same two numbers plus the number of the transmission it answers,
-    followed by pay[(b, c)] bytes of data (never more than the data buffer size the call was given)"""
+    arg1 = c, arg2 = b and req[(b, c)] bytes of data, and its reply carries the same two numbers plus the number of
+    the transmission it answers, followed by pay[(b, c)] bytes of data (neither ever more than the data buffer size
+    the call was given)"""
 
-    def __init__(self, pay=None):
+    def __init__(self, pay=None, req=None):
         self.pay = pay or {}
+        self.req = req or {}
 
-    @staticmethod
-    def request(data):
+    def request(self, data):
         p = SCPPacket.from_bytestring(data, n_args=3)
-        return p.seq, p.arg1, p.arg2
+        # last field: 1 if the data the datagram carries is, byte for byte, the data the caller gave the command it
+        # names (mechanical comparison of bytes)
+        return p.seq, p.arg1, p.arg2, int(bytes(p.data) == reqdata(p.arg1, p.arg2, self.req.get((p.arg2, p.arg1), 0)))
 
     def reply(self, seq, rc, cmd, burst, txid):
         return SCPPacket(reply_expected=False, tag=0xff, dest_port=7, dest_cpu=31, src_port=0, src_cpu=3,
@@ -74,7 +83,10 @@ def run_connection(spec, fates, default=None, overs=(), lifetime=True, label="",
         max_selects = 200 + 40 * max(b["n"] for b in spec["bursts"]) * spec["tries"]
     # replies carry data: pay[c-1] bytes for command c of a call, within the call's data buffer size
     pays = {(b, c): n for b, bs in enumerate(spec["bursts"], 1) for c, n in enumerate(bs.get("pay", ()), 1)}
-    net = VirtualNet(Codec(pays), fates=fates, default=default, overs=overs, lifetime=lifetime, max_selects=max_selects,
+    # commands carry data: req[c-1] bytes for command c of a call (nothing if the call has no "req"), within the
+    # call's data buffer size
+    reqs = {(b, c): n for b, bs in enumerate(spec["bursts"], 1) for c, n in enumerate(bs.get("req", ()), 1)}
+    net = VirtualNet(Codec(pays, reqs), fates=fates, default=default, overs=overs, lifetime=lifetime, max_selects=max_selects,
                      seqmod=spec["seqmod"])
     ev = net.events
     net.install(scp_connection)
@@ -123,14 +135,15 @@ def run_connection(spec, fates, default=None, overs=(), lifetime=True, label="",
                     if cost:
                         net.sleep(net.seconds(cost))
                     yield call
-            calls = [scpcall(1, 2, 3, 7, arg1=c, arg2=b, arg3=0, data=b"", callback=make_cb(c, cbcost[c - 1]),
+            calls = [scpcall(1, 2, 3, 7, arg1=c, arg2=b, arg3=0, data=reqdata(c, b, reqs.get((b, c), 0)),
+                             callback=make_cb(c, cbcost[c - 1]),
                              timeout=net.seconds(bs["extra"][c - 1])) for c in range(1, bs["n"] + 1)]
             via = bs.get("via", "list")
             try:
                 if via == "scp":
                     # send_scp: the reply handed back to the caller is what a callback would have received
                     r = conn.send_scp(bs.get("buf", 256), 1, 2, 3, 7, arg1=1, arg2=b, arg3=0,
-                                      timeout=net.seconds(bs["extra"][0]))
+                                      data=reqdata(1, b, reqs.get((b, 1), 0)), timeout=net.seconds(bs["extra"][0]))
                     ev.append(["callback", 1, r.arg2, r.arg1, r.cmd_rc, net.tick(net.now),
                                int(bytes(r.data) == payload(r.arg1, r.arg2, pays.get((r.arg2, r.arg1), 0)))])
                 elif via == "iter":
@@ -162,7 +175,7 @@ def run_connection(spec, fates, default=None, overs=(), lifetime=True, label="",
 def _record(spec, net, overs, lifetime, label, ev):
     return dict(t0=spec["t0"], tries=spec["tries"], seqmod=spec["seqmod"], seq0=spec.get("seq0", 0),
                 bursts=[dict(n=bs["n"], window=bs["window"], extra=list(bs["extra"]), via=bs.get("via", "list"),
-                             buf=bs.get("buf", 256), pay=list(bs.get("pay", ())),
+                             buf=bs.get("buf", 256), pay=list(bs.get("pay", ())), req=list(bs.get("req", ())),
                              cbcost=list(bs.get("cbcost") or ()), gencost=list(bs.get("gencost") or ()))
                         for bs in spec["bursts"]],
                 fates=[list(f) for f in net.used], overs=list(overs), lifetime=lifetime, label=label,
@@ -254,6 +267,15 @@ def small_specs(chk):
     out.append((dict(t0=t0, tries=2, seqmod=4, bursts=[dict(n=1, window=1, extra=[0], via="scp"),
                                                        dict(n=1, window=1, extra=[2], via="scp")]),
                 alphabet(t0, chk.pick(0, 2)), ()))
+    # commands that carry data TO the machine (block writes, table entries): 33 and 256 bytes through a window of
+    # two, 32 bytes through send_scp afterwards; every way a call can end - completion, the time-out of either
+    # command after one or two tries, each of the thirteen fatal return codes while either is unanswered
+    fatal = [["fatal%02x" % rc, [rc, 1]] for rc in FATALS]
+    out.append((dict(t0=t0, tries=2, seqmod=4, bursts=[dict(n=2, window=2, extra=[0, 0], req=[33, 256], pay=[0, 5])]),
+                [["lost"], ["ok", [OK, 1]], ["busy", [BUSY, 1]]] + fatal, ()))
+    out.append((dict(t0=t0, tries=1, seqmod=4, bursts=[dict(n=1, window=1, extra=[0], req=[257], buf=512, pay=[300]),
+                                                       dict(n=1, window=1, extra=[0], req=[32], via="scp")]),
+                [["lost"], ["ok", [OK, 1]], ["late1", [OK, t0 + 2]]] + fatal, ()))
     return out
 
 
@@ -311,6 +333,25 @@ def random_connection(rng):
         fates.append(f)
     overs = [rng.choice((0, 0, 1, 2)) for _ in range(40)]
     return spec, fates, overs
+
+
+REQ_SIZES = (0, 1, 4, 31, 32, 33, 64, 255, 256, 257)
+
+
+def with_request_data(made, drng):
+    """the same connection with commands that carry data to the machine: per call either none at all (reads, signals)
+    or, per command, 0 .. the call's data buffer size bytes - around the sizes where something could change (32/33,
+    255/256/257), half the buffer, one short of it, all of it.  Drawn from a stream of its own (drng), so the
+    connections and schedules are the ones drawn without it."""
+    spec = made[0]
+    for bs in spec["bursts"]:
+        buf = bs.get("buf", 256)
+        if drng.random() < 0.25:
+            bs["req"] = [0] * bs["n"]
+            continue
+        sizes = [k for k in REQ_SIZES + (buf // 2, buf - 1, buf, buf) if k <= buf]
+        bs["req"] = [drng.choice(sizes) for _ in range(bs["n"])]
+    return made
 
 
 def slow_connection(rng):
@@ -420,7 +461,9 @@ def simulated(chk):
         fates = [["sim"] + [[rcs[k], d * scale + 1] for k, d in tx] for tx in beh]
         extra = [t0 if c == 2 else 0 for c in range(1, const["NCmd"] + 1)]       # ExtraMixed, scaled
         spec = dict(t0=t0, tries=tries, seqmod=const["SeqMod"],
-                    bursts=[dict(n=const["NCmd"], window=win, extra=list(extra)) for _ in range(const["NBursts"])])
+                    bursts=[dict(n=const["NCmd"], window=win, extra=list(extra),
+                                 req=[(0, 33, 256)[(c + k) % 3] for c in range(const["NCmd"])])
+                            for k in range(const["NBursts"])])
         out.append(run_connection(spec, fates, default=["lost"], label="tlc-simulated"))
     return out
 
@@ -430,7 +473,8 @@ def key_of(tr, i, clauses):
     e = tr["ev"][i - 1]
     return "%s %s t0=%d tries=%d seqmod=%d bursts=%s fates=%s overs=%s" % (
         e[0], ",".join(clauses), tr["t0"], tr["tries"], tr["seqmod"],
-        [(b["n"], b["window"], b["extra"], b["via"]) for b in tr["bursts"]], tr["fates"],
+        [(b["n"], b["window"], b["extra"], b["via"]) + ((("req", b["req"]),) if any(b.get("req", ())) else ())
+         for b in tr["bursts"]], tr["fates"],
         tr["overs"][:8])
 
 
@@ -482,15 +526,31 @@ def spec_of(tr):
     return dict(t0=tr["t0"], tries=tr["tries"], seqmod=tr["seqmod"], seq0=tr.get("seq0", 0), bursts=tr["bursts"])
 
 
+def req_of(tr, b, c):
+    """bytes of data command c of call b was given to carry (-1: there is no such command)"""
+    if not (1 <= b <= len(tr["bursts"]) and 1 <= c <= tr["bursts"][b - 1]["n"]):
+        return -1
+    req = tr["bursts"][b - 1].get("req") or ()
+    return req[c - 1] if c <= len(req) else 0
+
+
 def tally(chk, tr):
     """informational counters (no verdicts)"""
     ev = tr["ev"]
     for e in ev:
         if e[0] == "raise":
             chk.count("calls that raised " + e[1])
+            # how much data the command named by the error was carrying to the machine
+            k = req_of(tr, e[3], e[2])
+            if k >= 0:
+                chk.count("... naming a command that carries %s of data" % (
+                    "0 bytes" if k == 0 else "1-32 bytes" if k <= 32 else "33-255 bytes" if k < 256 else
+                    "256 or more bytes"))
         elif e[0] == "return":
             chk.count("calls that returned")
     chk.count("datagrams sent", sum(1 for e in ev if e[0] == "send"))
+    chk.count("datagrams sent for commands that carry data", sum(1 for e in ev if e[0] == "send" and
+                                                                 req_of(tr, e[3], e[2]) > 0))
     chk.count("datagrams received", sum(1 for e in ev if e[0] == "recv"))
     chk.count("callbacks", sum(1 for e in ev if e[0] == "callback"))
     chk.count("replies of an earlier call read during a later call",
@@ -569,7 +629,8 @@ def run(chk):
             judge()
         domains.append("t0=%d tries=%d seqmod=%d bursts=%s alphabet=%s overshoot=%s: %d executions" % (
             spec["t0"], spec["tries"], spec["seqmod"],
-            [(b["n"], b["window"], b["extra"], b.get("via", "list")) for b in spec["bursts"]],
+            [(b["n"], b["window"], b["extra"], b.get("via", "list")) + ((("req", b["req"]),) if b.get("req") else ())
+             for b in spec["bursts"]],
             [a[0] for a in alpha], list(overs[:2]), k))
     chk.extra["small_scope_domains"] = domains
     chk.extra["small_scope_executions"] = nsmall
@@ -580,8 +641,9 @@ def run(chk):
     if sim:
         chk.sample(sim[len(sim) // 2])
     chk.extra["tlc_simulated_behaviours_replayed_into_impl"] = len(sim)
+    drng = random.Random(chk.seed * 1000 + 15)           # the stream the request data sizes are drawn from
     for i in range(chk.pick(6000, 150000)):
-        spec, fates, overs = random_connection(rng)
+        spec, fates, overs = with_request_data(random_connection(rng), drng)
         t = run_connection(spec, fates, default=["ok", [OK, 1]], overs=overs, label="random")
         pending.append(t)
         if i in (0, 1):
@@ -595,7 +657,7 @@ def run(chk):
     for name, make, count, salt in families:
         frng = random.Random(chk.seed * 1000 + salt)
         for i in range(count):
-            spec, fates, overs = make(frng)
+            spec, fates, overs = with_request_data(make(frng), drng)
             t = run_connection(spec, fates, default=["ok", [OK, 1]], overs=overs, label="random-" + name)
             pending.append(t)
             if i == 0 and name != "long":
@@ -623,7 +685,12 @@ def run(chk):
                 "schedules is extended only where the code transmits again).  Then behaviours of ScpDesign from "
                 "TLC's simulator replayed as schedules, then seeded random connections: 1-3 calls, 0-12 commands, "
                 "window 1-5, 1-5 tries, extra time-outs, 2/4/8/16/65536 sequence numbers (always more than the "
-                "window), select overshoot 0-2 ticks, lists and lazy iterables, send_scp for single commands.  "
+                "window), select overshoot 0-2 ticks, lists and lazy iterables, send_scp for single commands; "
+                "commands carry data to the machine - per call none, or per command 0/1/4/31/32/33/64/255/256/257 "
+                "bytes, half the call's data buffer size, one short of it, all of it (never more than it) - so do "
+                "the families below and the simulated behaviours, and two small-scope domains (33 + 256 bytes "
+                "through a window of two; 257 of 512 bytes, then 32 through send_scp) end in completion, in the "
+                "time-out of either command and in each of the thirteen fatal return codes.  "
                 "Then three further families: 'slow' - the same connections with callbacks and lazy iterables that "
                 "take 0 to 2 t0 + 3 ticks each (time passes outside select, deadlines lie in the past when select "
                 "is entered; the environment's select, like the real one, raises ValueError on a negative "
@@ -668,6 +735,9 @@ def selftest(chk):
                          default=["ok", [OK, 1]])
     one = run_connection(dict(t0=t0, tries=2, seqmod=4, bursts=[dict(n=1, window=1, extra=[0])]), [],
                          default=["ok", [OK, 1]])
+    # commands that carry 33 and 256 bytes of data: the first is sent twice and times out
+    big = run_connection(dict(t0=t0, tries=2, seqmod=4, bursts=[dict(n=2, window=2, extra=[0, 0], req=[33, 256])]),
+                         [["lost"], ["ok", [OK, 1]], ["busy", [BUSY, 1]]], default=["ok", [OK, 1]])
 
     def mut(base, f):
         t = dict(base)
@@ -690,10 +760,11 @@ def selftest(chk):
     nol = run_connection(nol_spec, nol_fates, default=["lost"], lifetime=False)
     withl = run_connection(nol_spec, nol_fates, default=["lost"], lifetime=True)
     cases = [
-        (good, None), (tmo, None), (fat, None), (withl, None), (one, None), (two, None),
+        (good, None), (tmo, None), (fat, None), (withl, None), (one, None), (two, None), (big, None),
         (nol, "RightReply"),
         (mut(good, lambda ev: ev[s2].__setitem__(4, ev[s2][4] - 2)), "NoEarlyRetransmit"),       # corrupt a time
         (mut(good, lambda ev: ev[c1].__setitem__(3, 2)), "RightReply"),                            # corrupt the reply id
+        (mut(big, lambda ev: ev[idx(ev, "send", 1)].__setitem__(6, 0)), "WholeRequest"),           # other data resent
         (mut(good, lambda ev: ev.__delitem__(c1)), "ExactlyOnce"),                                 # drop the callback
         (mut(good, lambda ev: ev.insert(c1, list(ev[c1]))), "AtMostOnce"),                         # callback twice
         (mut(good, lambda ev: ev.__delitem__(idx(ev, "return"))), "CallEnded"),                    # drop the return
@@ -723,4 +794,4 @@ def selftest(chk):
     if r.ok or "RightReply" not in (r.error or ""):
         msgs.append("ScpDesign_nolifetime did not violate RightReply")
     return not msgs, "; ".join(msgs) or ("%d corrupted traces rejected with the expected clauses; design without "
-                                         "the lifetime assumption refuted" % (len(cases) - 6))
+                                         "the lifetime assumption refuted" % (len(cases) - 7))
